@@ -481,17 +481,22 @@ impl PartialEq for Epoch {
 
 impl PartialOrd for Epoch {
     fn partial_cmp(&self, other: &Self) -> Option<Ordering> {
-        Some(
-            self.duration
-                .cmp(&other.to_time_scale(self.time_scale).duration),
-        )
+        Some(self.cmp(other))
     }
 }
 
 impl Ord for Epoch {
     fn cmp(&self, other: &Self) -> Ordering {
-        self.duration
-            .cmp(&other.to_time_scale(self.time_scale).duration)
+        // Like for the equality, always convert the time scale with leap seconds into the time scale
+        // that does NOT have leap seconds: the other direction is not injective during a leap second.
+        if self.time_scale.uses_leap_seconds() && !other.time_scale.uses_leap_seconds() {
+            self.to_time_scale(other.time_scale)
+                .duration
+                .cmp(&other.duration)
+        } else {
+            self.duration
+                .cmp(&other.to_time_scale(self.time_scale).duration)
+        }
     }
 }
 
